@@ -257,10 +257,16 @@ namespace hgraph::detail
                 return false;
             }
 
+            const bool previous_ticked_in_transition = previous.modified(link->structural_transition_time());
             const bool added_in_transition =
-                previous.modified(link->structural_transition_time()) &&
-                state->slot_access->slot_added(previous, slot);
-            return state->slot_access->slot_published(previous, slot) && !added_in_transition;
+                previous_ticked_in_transition && state->slot_access->slot_added(previous, slot);
+            // A removed slot lingers until the previous target's next tick rolls its
+            // delta. Unless that removal happened in the transition cycle itself the
+            // consumer has already been told about it: it was not published any more.
+            const bool removed_before_transition =
+                !previous_ticked_in_transition && state->slot_access->slot_removed(previous, slot);
+            return state->slot_access->slot_published(previous, slot) && !added_in_transition &&
+                   !removed_before_transition;
         }
 
         [[nodiscard]] bool target_link_previous_contains_published(const void *context,
